@@ -43,6 +43,7 @@ type thread struct {
 	chBlocked bool          // waiting for a counterpart on an unbuffered channel
 	chGo      bool          // woken to perform chOp, not to run
 	chOp      func()
+	sel       []SelCase // blocked in a select without default
 }
 
 var (
@@ -168,6 +169,9 @@ func enabled(t *thread) bool {
 	if t.chBlocked {
 		return false
 	}
+	if t.sel != nil && !selAnyReady(t.sel) {
+		return false
+	}
 	if t.chBuf.IsValid() {
 		if t.chKind == chSend && t.chBuf.Len() >= t.chBuf.Cap() && !isClosed(t.chID) {
 			return false
@@ -240,19 +244,8 @@ func schedule(self *thread) {
 		panic(DeadlockPanic{})
 	}
 	c := 0
-	if len(en) > 1 && Chooser != nil {
-		c = Chooser('S', len(en), selfEn)
-		if c < 0 || c >= len(en) {
-			panic(fmt.Sprintf("vsync: chooser returned %d of %d", c, len(en)))
-		}
-	} else if len(en) > 1 {
-		if i := len(Rec); i < len(Script) {
-			c = Script[i]
-			if c < 0 || c >= len(en) {
-				panic(ReplayDivergence{fmt.Sprintf("scheduling point %d: scripted choice %d of %d enabled", i, c, len(en))})
-			}
-		}
-		Rec = append(Rec, SchedPoint{len(en), c, selfEn})
+	if len(en) > 1 {
+		c = choose(len(en), selfEn)
 	}
 	next := en[c]
 	if next == self {
@@ -278,6 +271,29 @@ type SchedPoint struct {
 
 // ReplayDivergence is raised when Script does not fit the execution.
 type ReplayDivergence struct{ Msg string }
+
+// choose answers a choice point with n > 1 alternatives: through Chooser when the harness
+// installed one, otherwise from Script, recording the decision.
+//
+//go:norace
+func choose(n int, preempt bool) int {
+	if Chooser != nil {
+		c := Chooser('S', n, preempt)
+		if c < 0 || c >= n {
+			panic(fmt.Sprintf("vsync: chooser returned %d of %d", c, n))
+		}
+		return c
+	}
+	c := 0
+	if i := len(Rec); i < len(Script) {
+		c = Script[i]
+		if c < 0 || c >= n {
+			panic(ReplayDivergence{fmt.Sprintf("choice point %d: scripted choice %d of %d", i, c, n)})
+		}
+	}
+	Rec = append(Rec, SchedPoint{n, c, preempt})
+	return c
+}
 
 // DeadlockPanic is raised on the main goroutine when no goroutine can run.
 type DeadlockPanic struct{}
